@@ -47,6 +47,11 @@ unsafe impl std::alloc::GlobalAlloc for GuardAlloc {
     }
 }
 
+/// Called (with the guard already switched off) right before a worker ends itself because of an
+/// oversized request, so that what it has counted so far is not lost.
+pub static EMERGENCY_FN: AtomicUsize = AtomicUsize::new(0);
+pub static EMERGENCY_ARG: AtomicUsize = AtomicUsize::new(0);
+
 #[inline]
 fn check_alloc(size: usize) {
     let lim = ALLOC_LIMIT.load(Ordering::Relaxed);
@@ -58,6 +63,12 @@ fn check_alloc(size: usize) {
             let p = PAGE.load(Ordering::Relaxed);
             if !p.is_null() {
                 unsafe { (*p).alloc_size.store(size as u64, Ordering::SeqCst) };
+            }
+            ALLOC_LIMIT.store(0, Ordering::SeqCst);
+            let f = EMERGENCY_FN.swap(0, Ordering::SeqCst);
+            if f != 0 {
+                let func: fn(usize) = unsafe { std::mem::transmute(f) };
+                func(EMERGENCY_ARG.load(Ordering::SeqCst));
             }
             unsafe { libc::_exit(EXIT_OVERSIZED_ALLOC) };
         }
